@@ -45,6 +45,14 @@ CLAIMED = {
              "an ISO rule and is not asserted.",
         ref="§4 C13", technique="symbolic execution of the real virtual-ECU step function with z3 (CrossHair) against an ISO rule oracle",
     ),
+    "C14": dict(
+        text="Bounded symbolic execution (CrossHair + z3) of the real server step (handle_request) composed with the real client matcher "
+             "(helpers.parse_pdu): request bytes, model facts, start state and every random draw symbolic; on every path the server does not raise, "
+             "stays in an offered session, and its reply is accepted by the client both for the raw and the typed form of the request; short "
+             "histories (session change, seed, seed+key, reset, then a symbolic request) and the concrete model of a real seed are included.",
+        note="Trusted: CrossHair, z3. RNG/clock stubs as in C13 (payloads <= 2 bytes); TCP loop and ISO-TP outside; bounded request lengths and histories.",
+        ref="§4 C14", technique="symbolic execution of server step + client matcher with z3 (CrossHair)",
+    ),
     "C02": dict(
         text="Bounded symbolic execution (CrossHair + z3) of the real UDSResponse.parse_dynamic / from_pdu / pdu code: for every first byte "
              "0x00-0xFF and every total length in the stated bound, with all remaining bytes symbolic, every path is explored and the "
